@@ -18,6 +18,11 @@
 //	        call around one compaction, the durable state is cloned, projected,
 //	        restarted (index kept / wiped), observed and continued; optionally a
 //	        second crash hits the compaction the restart itself starts;
+//	fault   like crash, but the chosen lower-layer call returns an injected
+//	        error ONCE (without effect, or after having taken effect) and the
+//	        process goes on: projection and client view right after the failed
+//	        call, further uploads through the next compaction, a restart (index
+//	        kept / wiped), projection and client view again;
 //	tamper  on a quiescent store one stored object is damaged or substituted
 //	        directly in the gate MemStore, a fresh instance is built and every
 //	        plain blob is fetched: exactly-original or an error.
@@ -88,6 +93,9 @@ type scenario struct {
 	Wipe   bool   `json:"wipe"`
 	Second string `json:"second,omitempty"` // "", or a class like At for the compaction started by the restart
 	Cont   int    `json:"cont,omitempty"`
+	// fault: the call chosen by At (same classes as crash) fails once. FK: "error" (no effect) | "after" (the call took
+	// effect but reported an error); At = "rmpartial": RemoveBlobs removes half of the small meta blobs and fails
+	FK string `json:"fk,omitempty"`
 	// tamper
 	Target string `json:"target,omitempty"` // blob | blobtiny | metasingle | metapacked
 	TK     string `json:"tk,omitempty"`     // flip | trunc1 | trunchalf | extend | swap | xswap | forge
@@ -361,7 +369,7 @@ func (w *world) state(dur *stores.Durable) (metas, enc, index []any) {
 // ---------------------------------------------------------------- lower-layer events
 
 func lowerLine(act string) gate.Event {
-	return gate.Event{"ev": "lower", "act": act, "id": 0, "np": 0, "ids": []any{}, "p": 0, "c": 0}
+	return gate.Event{"ev": "lower", "act": act, "res": "ok", "id": 0, "np": 0, "ids": []any{}, "p": 0, "c": 0}
 }
 
 // drain translates the gate log since the last drain into trace lines. inRecv: a ReceiveBlob is (was) in
@@ -392,11 +400,49 @@ func (w *world) drain(emit func(gate.Event), inRecv bool) {
 			l["id"] = w.ids.id(ref)
 			l["np"] = len(w.metaEntries(w.dur, ref))
 			emit(l)
+		case (layer == "r/0" || layer == "r/1") && call == "ReceiveBlob" && (res == "injected" || res == "injected-after"):
+			// the call failed on an injected error; "injected": nothing was stored (no id is spent on the name, no line
+			// count is known), "injected-after": the object is there all the same
+			l := lowerLine(map[string]string{"r/0": "blobput", "r/1": "metaput"}[layer])
+			l["res"] = res
+			if res == "injected-after" {
+				ref := ev["b"].(string)
+				l["id"] = w.ids.id(ref)
+				if layer == "r/1" {
+					l["np"] = len(w.metaEntries(w.dur, ref))
+				}
+			}
+			emit(l)
+		case layer == "r/1" && call == "RemoveBlobs" && (res == "injected" || res == "injected-after"):
+			l := lowerLine("metadel")
+			l["res"] = res
+			var ids []int
+			for _, b := range ev["bs"].([]any) {
+				ids = append(ids, w.ids.id(b.(string)))
+			}
+			sort.Ints(ids)
+			l["ids"] = intsAny(ids)
+			emit(l)
+		case layer == "r.idx" && call == "Set" && (res == "injected" || res == "injected-after"):
+			l := lowerLine("idxset")
+			l["res"] = res
+			l["p"] = w.rankOfText(ev["k"].(string))
+			if v, ok := ev["v"].(string); ok {
+				_, encRef, _ := strings.Cut(v, "/")
+				l["c"] = w.ids.id(encRef)
+			}
+			emit(l)
+		case layer == "r.idx" && call == "Get" && res == "injected":
+			l := lowerLine("idxget")
+			l["res"] = res
+			l["p"] = w.rankOfText(ev["k"].(string))
+			emit(l)
 		case layer == "r/1" && call == "RemoveBlobs" && (res == "ok" || res == "injected-partial"):
 			l := lowerLine("metadel")
 			key := "bs"
 			if res == "injected-partial" {
 				key = "done"
+				l["res"] = "partial"
 			}
 			var ids []int
 			for _, b := range ev[key].([]any) {
@@ -1063,7 +1109,24 @@ func runLong(scn *scenario, rng *rand.Rand) {
 // ---------------------------------------------------------------- crash
 
 // window: lower-layer call sequence of the receive that triggers the compaction (dry run), until quiescence.
+var winSeq []string // the window of the dry run: "layer.call" of every lower-layer call
+
 func dryWindow(rng *rand.Rand, pre int) []string {
+	var seq []string
+	// a job that lost the race for the index row of the receive that started it gives up: that window has no upload and
+	// no removal to aim at - look at another one
+	for try := 0; try < 4; try++ {
+		seq = dryWindow1(rng, pre)
+		for _, c := range seq {
+			if c == "r/1.RemoveBlobs" {
+				return seq
+			}
+		}
+	}
+	return seq
+}
+
+func dryWindow1(rng *rand.Rand, pre int) []string {
 	u := universe(rng, pre+2)
 	w, err := open(u, nil, newIDs(), false, nil)
 	if err != nil {
@@ -1277,6 +1340,140 @@ func runCrash(scn *scenario, rng *rand.Rand, win1 int) {
 	} else {
 		w3.sys.Close()
 	}
+	seg.flush()
+	classes[label]++
+}
+
+// ---------------------------------------------------------------- fault
+
+// runFault: the k-th lower-layer call of the window (the receive that triggers the compaction, and the job it starts;
+// same classes as runCrash) returns an injected error once - translated into "the ord-th call of that layer and kind
+// from now on", which stays the same call however the job's index reads interleave with the receive's index.Set - and
+// the process goes on.
+func runFault(scn *scenario, rng *rand.Rand) {
+	pre := scn.Pre
+	u := universe(rng, pre+scn.Cont+4)
+	scan := newLeakScan(u)
+	ids := newIDs()
+	w, err := open(u, nil, ids, false, nil)
+	if err != nil {
+		fatal(err)
+	}
+	seg := &segment{}
+	reset := resetEvent(w, scn, "", nil)
+	seg.emit(reset)
+	var got []int
+	have := map[int]bool{}
+	ack := func(ev gate.Event, rank int) {
+		if ev["res"] == "ok" && !have[rank] {
+			have[rank] = true
+			got = append(got, rank)
+		}
+	}
+	for i := 0; i < pre; i++ {
+		ack(receive(w, seg, u.Blobs[i].Rank), u.Blobs[i].Rank)
+	}
+	waitQuiet()
+	w.drain(seg.emit, false)
+	k := scn.K
+	if k == 0 {
+		k = classK(scn.At, len(winSeq))
+	}
+	kind := scn.FK
+	if kind != "after" {
+		kind = "error"
+	}
+	var flt *gate.Fault
+	if scn.At == "rmpartial" {
+		kind = "partial"
+		flt = &gate.Fault{Layer: "r/1", Call: "RemoveBlobs", N: 1, Kind: "partial"}
+	} else if k >= 1 && k <= len(winSeq) {
+		ord := 0
+		for _, c := range winSeq[:k] {
+			if c == winSeq[k-1] {
+				ord++
+			}
+		}
+		dot := strings.LastIndex(winSeq[k-1], ".")
+		flt = &gate.Fault{Layer: winSeq[k-1][:dot], Call: winSeq[k-1][dot+1:], N: ord, Kind: kind}
+		if flt.Call == "Get" {
+			kind = "error" // a read has no effect to take
+		}
+	}
+	if flt != nil {
+		w.plan.Faults = []*gate.Fault{flt}
+	}
+	victim := u.Blobs[pre].Rank
+	ev := w.r.Do(drv.Op{Op: "receive", B: victim})
+	waitQuiet()
+	w.plan.Faults = nil // (a job that gave up early never reached the chosen call: nothing is injected later)
+	cls := "none"
+	if flt != nil && flt.Hit {
+		cls = callClass(flt.HitAt)
+		switch {
+		case cls == "meta.put" && flt.N == 1:
+			cls = "meta.put:single"
+		case cls == "meta.put":
+			cls = "meta.put:packed"
+		case cls == "idx.get" && flt.N == 1:
+			cls = "idx.get:dupcheck"
+		case cls == "idx.get":
+			cls = "idx.get:job"
+		}
+		cls += ":" + kind
+	}
+	label := fmt.Sprintf("fault@%s/wipe=%v/cont=%d", cls, scn.Wipe, scn.Cont)
+	reset["label"] = label
+	w.drain(seg.emit, true)
+	failed := ev["res"] != "ok"
+	if failed {
+		ev["flt"] = true
+	}
+	ack(ev, victim)
+	seg.emit(ev)
+	seg.emit(scan.scan(w.dur, "fault@"+cls))
+	seg.emit(w.stateLine(w.dur, "state"))
+	// what is fetched: every acknowledged blob and the victim
+	fetch := func() []int {
+		f := append([]int{}, got...)
+		if !have[victim] {
+			f = append(f, victim)
+		}
+		return f
+	}
+	observe(w, seg, fetch(), false)
+	// the client retries the failed upload - unless the failed one left a meta blob behind (the retry would store a
+	// second ciphertext and a second, conflicting meta entry for the same blob: which one a start-up scan keeps is
+	// the scan's order) - and continues through the next compaction
+	var more []int
+	if failed && cls != "meta.put:single:after" && cls != "idx.set:error" {
+		more = append(more, victim)
+	}
+	for i := pre + 1; i <= pre+scn.Cont; i++ {
+		more = append(more, u.Blobs[i].Rank)
+	}
+	for _, rank := range more {
+		ack(receive(w, seg, rank), rank)
+	}
+	waitQuiet()
+	w.drain(seg.emit, true)
+	if len(more) > 0 {
+		seg.emit(scan.scan(w.dur, "continued"))
+		seg.emit(w.stateLine(w.dur, "state"))
+		observe(w, seg, fetch(), true)
+	}
+	// the store's own recovery: a fresh instance, the index kept or wiped
+	w.sys.Close()
+	w2, ok := restart(w, seg, w.dur, scn.Wipe, nil)
+	if !ok {
+		seg.flush()
+		classes[label+"/restart-failed"]++
+		return
+	}
+	seg.emit(w2.stateLine(w2.dur, "state"))
+	observe(w2, seg, fetch(), false)
+	seg.emit(scan.scan(w2.dur, "end"))
+	w2.sys.Close()
 	seg.flush()
 	classes[label]++
 }
@@ -1708,16 +1905,20 @@ func main() {
 	win := 0
 	needWin := *random > 0
 	for _, s := range scns {
-		if s.Kind == "crash" {
+		if s.Kind == "crash" || s.Kind == "fault" {
 			needWin = true
 		}
 	}
 	if needWin {
-		win = len(dryWindow(rng, encrypt.SmallMetaCountLimit))
+		winSeq = dryWindow(rng, encrypt.SmallMetaCountLimit)
+		win = len(winSeq)
 		stats["window_calls"] = win
 	}
 	for i := 0; i < *random; i++ {
-		switch rng.Intn(5) {
+		switch rng.Intn(6) {
+		case 5:
+			scns = append(scns, scenario{Kind: "fault", Pre: encrypt.SmallMetaCountLimit, K: 1 + rng.Intn(win+1), Wipe: rng.Intn(2) == 0,
+				FK: []string{"error", "after"}[rng.Intn(2)], Cont: []int{0, 3, 105}[rng.Intn(3)]})
 		case 0:
 			n := 101 + rng.Intn(225)
 			s := scenario{Kind: "hist", N: n}
@@ -1758,6 +1959,9 @@ func main() {
 		case "crash":
 			s.Pre = encrypt.SmallMetaCountLimit // the next receive is the one that triggers the compaction
 			runCrash(s, rng, win)
+		case "fault":
+			s.Pre = encrypt.SmallMetaCountLimit
+			runFault(s, rng)
 		case "tamper":
 			runTamper(s, rng, bases)
 		default:
